@@ -198,11 +198,13 @@ func (s *ManagedServer) AddCredential(username string, uPSK []byte) error {
 	}
 	s.cachedCredMap[username] = uc
 	s.cachedUserLookupMap[uc.uPSKHash] = c
-	s.mu.Unlock()
-	s.enqueueSave()
+	// Apply the change to the live stores before releasing the lock,
+	// so that concurrent operations reach them in the same order as the cache.
 	s.updateProdULM(func(ulm ss2022.UserLookupMap) {
 		ulm[uc.uPSKHash] = c
 	})
+	s.mu.Unlock()
+	s.enqueueSave()
 	return nil
 }
 
@@ -231,12 +233,12 @@ func (s *ManagedServer) UpdateCredential(username string, uPSK []byte) error {
 	uc.uPSKHash = ss2022.PSKHash(uPSK)
 	delete(s.cachedUserLookupMap, oldUPSKHash)
 	s.cachedUserLookupMap[uc.uPSKHash] = c
-	s.mu.Unlock()
-	s.enqueueSave()
 	s.updateProdULM(func(ulm ss2022.UserLookupMap) {
 		delete(ulm, oldUPSKHash)
 		ulm[uc.uPSKHash] = c
 	})
+	s.mu.Unlock()
+	s.enqueueSave()
 	return nil
 }
 
@@ -250,11 +252,11 @@ func (s *ManagedServer) DeleteCredential(username string) error {
 	}
 	delete(s.cachedCredMap, username)
 	delete(s.cachedUserLookupMap, uc.uPSKHash)
-	s.mu.Unlock()
-	s.enqueueSave()
 	s.updateProdULM(func(ulm ss2022.UserLookupMap) {
 		delete(ulm, uc.uPSKHash)
 	})
+	s.mu.Unlock()
+	s.enqueueSave()
 	return nil
 }
 
@@ -310,14 +312,16 @@ func (s *ManagedServer) LoadFromFile() error {
 	s.cachedContent = strings.Clone(content)
 	s.cachedUserLookupMap = userLookupMap
 	s.cachedCredMap = credMap
-	s.mu.Unlock()
 
+	// Replace the live maps before releasing the lock, so that concurrent
+	// operations reach them in the same order as the cache.
 	if s.tcp != nil {
 		s.tcp.ReplaceUserLookupMap(maps.Clone(s.cachedUserLookupMap))
 	}
 	if s.udp != nil {
 		s.udp.ReplaceUserLookupMap(maps.Clone(s.cachedUserLookupMap))
 	}
+	s.mu.Unlock()
 
 	return nil
 }
